@@ -101,6 +101,24 @@ MUTS = [
   "np.arange(self.num_chans) - self.num_chans // 2) / self.num_chans", "np.arange(self.num_chans) - (self.num_chans - 1) // 2) / self.num_chans"),
  ('M41 v4: time_offset applied to the data timestamps twice when dumps are preselected', 'katdal/visdatav4.py',
   "        source.timestamps += self.time_offset\n", "        source.timestamps += self.time_offset * (2 if getattr(source, 'capture_start', None) is not None and source.capture_start != source.timestamps[0] else 1)\n"),
+ # ---- extension round: the frequency axis of the HDF5 readers against the stored attributes
+ ('M42 v1: spectral window built with the upper sideband', 'katdal/h5datav1.py',
+  "SpectralWindow(centre_freq, channel_width, num_chans, 'poco')", "SpectralWindow(centre_freq, channel_width, num_chans, 'poco', 1)"),
+ ('M43 SpectralWindow: default sideband +1', 'katdal/spectral_window.py',
+  "sideband=-1, band='L', bandwidth=None):", "sideband=1, band='L', bandwidth=None):"),
+ ('M44 v2 (old files): LO offset 4000 MHz', 'katdal/h5datav2.py', "freq - 4200e6 for freq", "freq - 4000e6 for freq"),
+ ('M45 v2: version test excludes 2.1 files from the calculated centre-frequency sensor', 'katdal/h5datav2.py',
+  "if self.version >= '2.1':\n            centre_freq", "if self.version > '2.1':\n            centre_freq"),
+ ('M46 v3 fake UHF: spectrum not flipped', 'katdal/h5datav3.py',
+  "            spw_params['centre_freq'] = 428e6\n            spw_params['sideband'] = -1\n", "            spw_params['centre_freq'] = 428e6\n"),
+ ('M47 v3: centre_freq argument applied BEFORE the L0 attribute', 'katdal/h5datav3.py',
+  "        if l0_centre_freq is not None:\n            spw_params['centre_freq'] = l0_centre_freq\n",
+  "        if l0_centre_freq is not None and not centre_freq:\n            spw_params['centre_freq'] = l0_centre_freq\n        if l0_centre_freq is not None and centre_freq:\n            centre_freq = l0_centre_freq\n"),
+ ('M48 v3: UHF band centred on 815 MHz', 'katdal/h5datav3.py', "centre_freq=816e6", "centre_freq=815e6"),
+ ('M49 v3: CBF bandwidth bug no longer worked around', 'katdal/h5datav3.py', "if bandwidth == 857152196.0:", "if bandwidth == 857152197.0:"),
+ ('M50 v2: channel width from one channel too few', 'katdal/h5datav2.py', "channel_width = bandwidth / num_chans", "channel_width = bandwidth / (num_chans - 1)"),
+ ('M51 v3: vis conjugated for the upper sideband too when the band is UHF', 'katdal/h5datav3.py',
+  "if self.spectral_windows[self.spw].sideband == 1:", "if self.spectral_windows[self.spw].sideband == 1 and self.spectral_windows[self.spw].band != 'UHF':"),
 ]
 only = sys.argv[1:]
 res = []
